@@ -172,7 +172,7 @@ func (w *World) lockInfo() *lockInfo {
 					dfr = nil
 				}
 			}
-			for _, s := range it.b.Succs {
+			for _, s := range liveSuccs(it.b) {
 				work = append(work, item{s, held, dfr})
 			}
 		}
@@ -440,7 +440,7 @@ func ruleL1(c *Ctx, rule string, floor int, filter func(fn *ssa.Function) bool) 
 					}
 				}
 			}
-			for _, succ := range it.b.Succs {
+			for _, succ := range liveSuccs(it.b) {
 				work = append(work, item{succ, s})
 			}
 		}
